@@ -455,6 +455,7 @@ def r4(ctx):
     C02.r2(sub)
     C02.r3(sub)
     C02.r4(sub)
+    C02.r10(sub)
     # prefix removal: the store's prune primitive asks the predicate about each row's own record and removes by its verdict
     # (the rest of C02.R1 - the value order - is C02's and C01's)
     sub1 = type(ctx)(ctx.prop, ctx.tier, ctx.facts, ctx.cfg)
@@ -464,7 +465,7 @@ def r4(ctx):
     for o in sub.obligations:
         o = dict(o)
         o["key"] = o["key"].replace("C02.R1", "C08.R4")
-        o["key"] = o["key"].replace("C02.R2a", "C08.R4").replace("C02.R2b", "C08.R4").replace("C02.R3", "C08.R4").replace("C02.R4", "C08.R4")
+        o["key"] = o["key"].replace("C02.R2a", "C08.R4").replace("C02.R2b", "C08.R4").replace("C02.R3", "C08.R4").replace("C02.R4", "C08.R4").replace("C02.R10", "C08.R4")
         o["rule"] = "C08.R4"
         ctx.obligations.append(o)
         if o["status"] != "holds":
